@@ -887,7 +887,13 @@ class BlobStorage(BlobStorageMixin):
             for oid in self.fshelper.getOIDsForSerial(serial_id):
                 # we want to find the serial id of the previous revision
                 # of this blob object.
-                load_result = self.loadBefore(oid, serial_id)
+                try:
+                    load_result = self.loadBefore(oid, serial_id)
+                except POSKeyError:
+                    # The object did not exist before serial_id either:
+                    # that transaction brought it back after its
+                    # creation had been undone.
+                    load_result = None
 
                 if load_result is None:
 
